@@ -49,8 +49,16 @@ def t3(rep, tier, seed):
     rng = random.Random(seed)
     ex = exhaustive_sequences(3 if tier == "quick" else 4)
     rnd = [T.gen_op_sequence(rng, rng.randint(4, 14)) for _ in range(1500 if tier == "quick" else 20000)]
+    # many bins (code paths that only start beyond a dozen bins): 18..24 bins, one item each with distinct values in a rotated order, then sort / copy / add
+    many = []
+    for nb in ((18,) if tier == "quick" else (17, 18, 20, 24)):
+        for rot in (1, 5, 7):
+            items = [f"y{i}" for i in range(nb)]
+            values = [(it, (i * rot + 3) % nb + 1) for i, it in enumerate(items)]
+            ops = [["new", "a1", nb]] + [["add", "a1", items[i], i] for i in range(nb)] + [["sort", "a1"], ["copy", "a1", "a2"], ["add", "a2", items[0], nb - 1], ["sort", "a2"], ["sort", "a1"]]
+            many.append({"ops": ops, "values": values})
     for keeps, name in ((False, "BinnerKeepingSums"), (True, "BinnerKeepingContents")):
-        dom = [dict(d, keeps=keeps) for d in ex + rnd]
+        dom = [dict(d, keeps=keeps) for d in ex + rnd + many]
         rep.add(H.run_case(f"C16/T3/{name}/operation-sequences", f"prtpy/binners.py::{name}", T.c16_case, dom,
                            f"bounded-exhaustive operation sequences of length <= {3 if tier == 'quick' else 4} over a pool starting from one 2-bin array ({len(ex)} sequences) + {len(rnd)} seeded random sequences of length 4..14 over up to 3-bin arrays; hand-over discipline respected; every live array compared with a reference model after every operation", chunk=128))
 
